@@ -32,8 +32,14 @@ Definition synthesis_init (i : ident) (s : setup) : option dsetup :=
 Definition dbk (ds : dsetup) (i : Z) : dbook := nth (Z.to_nat i) (ds_books ds) empty_dbook.
 
 (* oggpack_read with the value -1 and an exhausted reader at end of packet *)
-Definition rdm (w : nat) (bs : bits) : Z * bits :=
-  match rd w bs with Some (v, r) => (v, r) | None => (-1, []) end.
+(* the packet reader: remaining bits and libogg's overflow state (a read ran
+   past the end).  A failed codeword look-up consumes what is left WITHOUT
+   setting that state (oggpack_look/oggpack_adv), a failed oggpack_read sets it. *)
+Definition prd := (bits * bool)%type.
+Definition rdm (w : nat) (p : prd) : Z * prd :=
+  match rd w (fst p) with Some (v, r) => (v, (r, snd p)) | None => (-1, ([], true)) end.
+Definition bdec (d : dbook) (p : prd) : option Z * prd :=
+  let '(o, r) := book_decode d (fst p) in (o, (r, snd p)).
 
 Definition zn (l : list Z) (i : Z) : Z := nth (Z.to_nat i) l 0.
 
@@ -63,7 +69,7 @@ Definition render_point (x0 x1 y0 y1 x : Z) : Z :=
   if dy <? 0 then y0 - off else y0 + off.
 
 (* the partition loop of floor1_inverse1: values for posts 2.., or None at end of packet *)
-Fixpoint f1_sub (ds : dsetup) (c : fclass) (k : nat) (cval : Z) (bs : bits) : option (list Z) * bits :=
+Fixpoint f1_sub (ds : dsetup) (c : fclass) (k : nat) (cval : Z) (bs : prd) : option (list Z) * prd :=
   match k with
   | O => (Some [], bs)
   | S k' =>
@@ -71,18 +77,18 @@ Fixpoint f1_sub (ds : dsetup) (c : fclass) (k : nat) (cval : Z) (bs : bits) : op
       let book := nth (Z.to_nat (Z.land cval (csub - 1))) (c_subbook c) (-1) in
       let cval' := Z.shiftr cval (c_subs c) in
       if book >=? 0 then
-        match book_decode (dbk ds book) bs with
+        match bdec (dbk ds book) bs with
         | (None, r) => (None, r)
         | (Some v, r) => match f1_sub ds c k' cval' r with (Some l, r2) => (Some (v :: l), r2) | (None, r2) => (None, r2) end
         end
       else match f1_sub ds c k' cval' bs with (Some l, r2) => (Some (0 :: l), r2) | (None, r2) => (None, r2) end
   end.
-Fixpoint f1_parts (ds : dsetup) (classes : list fclass) (pc : list Z) (bs : bits) : option (list Z) * bits :=
+Fixpoint f1_parts (ds : dsetup) (classes : list fclass) (pc : list Z) (bs : prd) : option (list Z) * prd :=
   match pc with
   | [] => (Some [], bs)
   | cl :: rest =>
       let c := cls classes cl in
-      let '(cv, r1) := if c_subs c =? 0 then (Some 0, bs) else book_decode (dbk ds (c_book c)) bs in
+      let '(cv, r1) := if c_subs c =? 0 then (Some 0, bs) else bdec (dbk ds (c_book c)) bs in
       match cv with
       | None => (None, r1)
       | Some cval =>
@@ -116,8 +122,8 @@ Fixpoint f1_unwrap (fuel : nat) (pl : list Z) (q : Z) (i : Z) (fit : list Z) : l
       f1_unwrap f pl q (i + 1) fit'
   end.
 
-Definition floor1_inverse1 (ds : dsetup) (pc : list Z) (classes : list fclass) (mult rangebits : Z) (posts : list Z) (bs : bits)
-  : option (list Z) * bits :=
+Definition floor1_inverse1 (ds : dsetup) (pc : list Z) (classes : list fclass) (mult rangebits : Z) (posts : list Z) (bs : prd)
+  : option (list Z) * prd :=
   let '(flag, r0) := rdm 1 bs in
   if negb (flag =? 1) then (None, r0) else
   let q := f1_quantq mult in
@@ -182,12 +188,12 @@ Definition floor1_curve (n : Z) (mult rangebits : Z) (posts : list Z) (fit : lis
 (* floor 0: bits consumed and LSP coefficients (amplitude stays raw)    *)
 (* ------------------------------------------------------------------ *)
 (* vorbis_book_decodev_set *)
-Fixpoint decodev_set (fuel : nat) (d : dbook) (n : Z) (i : Z) (bs : bits) : option (list f32) * bits :=
+Fixpoint decodev_set (fuel : nat) (d : dbook) (n : Z) (i : Z) (bs : prd) : option (list f32) * prd :=
   match fuel with
   | O => (Some [], bs)
   | S f =>
       if i >=? n then (Some [], bs) else
-      match book_decode d bs with
+      match bdec d bs with
       | (None, r) => (None, r)
       | (Some e, r) =>
           let t := firstn (Z.to_nat (n - i)) (book_vector d e) in
@@ -214,8 +220,8 @@ Inductive memo :=
 | MFloor1 (fit : list Z)
 | MFloor0 (ampraw : Z) (lsp : list f32).
 
-Definition floor0_inverse1 (ds : dsetup) (order ampbits : Z) (books : list Z) (bs : bits) : memo * bits :=
-  if ampbits >? 32 then (MNone, []) else           (* oggpack_read refuses more than 32 bits *)
+Definition floor0_inverse1 (ds : dsetup) (order ampbits : Z) (books : list Z) (bs : prd) : memo * prd :=
+  if ampbits >? 32 then (MNone, ([], true)) else           (* oggpack_read refuses more than 32 bits *)
   let '(ampraw0, r0) := rdm (Z.to_nat ampbits) bs in
   let ampraw := if ampbits =? 32 then s32 ampraw0 else ampraw0 in     (* stored in an int *)
   if ampraw >? 0 then
@@ -230,7 +236,7 @@ Definition floor0_inverse1 (ds : dsetup) (order ampbits : Z) (books : list Z) (b
     else (MNone, r1)
   else (MNone, r0).
 
-Definition floor_inverse1 (ds : dsetup) (f : Setup.floor) (bs : bits) : memo * bits :=
+Definition floor_inverse1 (ds : dsetup) (f : Setup.floor) (bs : prd) : memo * prd :=
   match f with
   | Floor1 pc classes mult rangebits posts =>
       match floor1_inverse1 ds pc classes mult rangebits posts bs with
@@ -251,12 +257,12 @@ Fixpoint add_at (off : nat) (vals : list f32) (vec : list f32) : list f32 :=
   end.
 
 (* vorbis_book_decodev_add: (vector, reader, ok) *)
-Fixpoint decodev_add (fuel : nat) (d : dbook) (vec : list f32) (off n i : Z) (bs : bits) : list f32 * bits * bool :=
+Fixpoint decodev_add (fuel : nat) (d : dbook) (vec : list f32) (off n i : Z) (bs : prd) : list f32 * prd * bool :=
   match fuel with
   | O => (vec, bs, true)
   | S f =>
       if i >=? n then (vec, bs, true) else
-      match book_decode d bs with
+      match bdec d bs with
       | (None, r) => (vec, r, false)
       | (Some e, r) =>
           let t := firstn (Z.to_nat (n - i)) (book_vector d e) in
@@ -265,16 +271,16 @@ Fixpoint decodev_add (fuel : nat) (d : dbook) (vec : list f32) (off n i : Z) (bs
       end
   end.
 
-Fixpoint decode_n (k : nat) (d : dbook) (bs : bits) : option (list Z) * bits :=
+Fixpoint decode_n (k : nat) (d : dbook) (bs : prd) : option (list Z) * prd :=
   match k with
   | O => (Some [], bs)
-  | S k' => match book_decode d bs with
+  | S k' => match bdec d bs with
             | (None, r) => (None, r)
             | (Some e, r) => match decode_n k' d r with (Some l, r2) => (Some (e :: l), r2) | (None, r2) => (None, r2) end
             end
   end.
 (* vorbis_book_decodevs_add: step = n/dim entries first, then the interleaved adds *)
-Definition decodevs_add (d : dbook) (vec : list f32) (off n : Z) (bs : bits) : list f32 * bits * bool :=
+Definition decodevs_add (d : dbook) (vec : list f32) (off n : Z) (bs : prd) : list f32 * prd * bool :=
   let dim := b_dim (d_src d) in
   let step := Z.quot n dim in
   match decode_n (Z.to_nat step) d bs with
@@ -299,12 +305,12 @@ Fixpoint vv_scatter (vecs : list (list f32)) (ch : Z) (t : list f32) (i chptr m 
       let vecs' := lset vecs (Z.to_nat chptr) (add_at (Z.to_nat i) [x] v) in
       if chptr + 1 =? ch then vv_scatter vecs' ch r (i + 1) 0 m else vv_scatter vecs' ch r i (chptr + 1) m
   end.
-Fixpoint decodevv_add (fuel : nat) (d : dbook) (vecs : list (list f32)) (ch i chptr m : Z) (bs : bits) : list (list f32) * bits * bool :=
+Fixpoint decodevv_add (fuel : nat) (d : dbook) (vecs : list (list f32)) (ch i chptr m : Z) (bs : prd) : list (list f32) * prd * bool :=
   match fuel with
   | O => (vecs, bs, true)
   | S f =>
       if i >=? m then (vecs, bs, true) else
-      match book_decode d bs with
+      match bdec d bs with
       | (None, r) => (vecs, r, false)
       | (Some e, r) =>
           let t := book_vector d e in
@@ -328,7 +334,7 @@ Definition res_stages (r : residue) : Z := zmax_list (map ilog (r_secondstages r
 Definition pw_digit (r : residue) (dim : Z) (temp k : Z) : Z :=
   (temp / r_partitions r ^ (dim - 1 - k)) mod r_partitions r.
 
-Record rstate := { rs_vecs : list (list f32); rs_bits : bits; rs_pw : list (list Z); rs_go : bool }.
+Record rstate := { rs_vecs : list (list f32); rs_bits : prd; rs_pw : list (list Z); rs_go : bool }.
 
 (* residue formats 0 and 1: the body for one partition word position l *)
 Fixpoint r01_chan (ds : dsetup) (r : residue) (s : Z) (dim : Z) (i l k : Z) (j : nat) (nch : nat) (st : rstate) : rstate :=
@@ -368,7 +374,7 @@ Fixpoint r01_fetch (ds : dsetup) (r : residue) (nch : nat) (j : nat) (st : rstat
   | O => st
   | S n' =>
       if negb (rs_go st) then st else
-      match book_decode (dbk ds (r_groupbook r)) (rs_bits st) with
+      match bdec (dbk ds (r_groupbook r)) (rs_bits st) with
       | (None, b) => {| rs_vecs := rs_vecs st; rs_bits := b; rs_pw := rs_pw st; rs_go := false |}
       | (Some temp, b) =>
           if temp >=? r_partvals r then {| rs_vecs := rs_vecs st; rs_bits := b; rs_pw := rs_pw st; rs_go := false |}
@@ -394,7 +400,7 @@ Fixpoint r01_stages (ds : dsetup) (r : residue) (dim partvals : Z) (nch : nat) (
            else r01_stages ds r dim partvals nch (s + 1) c (r01_parts (Z.to_nat partvals + 1) ds r s dim partvals nch 0 0 st)
   end.
 
-Definition res01_inverse (ds : dsetup) (r : residue) (halfn : Z) (vecs : list (list f32)) (bs : bits) : list (list f32) * bits :=
+Definition res01_inverse (ds : dsetup) (r : residue) (halfn : Z) (vecs : list (list f32)) (bs : prd) : list (list f32) * prd :=
   let nch := length vecs in
   let dim := b_dim (d_src (dbk ds (r_groupbook r))) in
   let end_ := if r_end r <? halfn then r_end r else halfn in
@@ -422,7 +428,9 @@ Fixpoint r2_k (ds : dsetup) (r : residue) (s dim partvals ch : Z) (i l k : Z) (c
               let d := dbk ds (zn (r_booklist r) bi) in
               if d_used d =? 0 then st else
               let off := i * r_grouping r + r_begin r in
-              let '(vecs', bs', ok) := decodevv_add (Z.to_nat (r_grouping r) + 1) d (rs_vecs st) ch (Z.quot off ch) 0
+              (* the loop runs until i reaches m: up to (m - i) * ch values, which can exceed the grouping *)
+              let '(vecs', bs', ok) := decodevv_add (Z.to_nat ((Z.quot (off + r_grouping r) ch - Z.quot off ch + 1) * ch + 2))
+                                         d (rs_vecs st) ch (Z.quot off ch) 0
                                          (Z.quot (off + r_grouping r) ch) (rs_bits st) in
               {| rs_vecs := vecs'; rs_bits := bs'; rs_pw := rs_pw st; rs_go := ok |}
           end
@@ -445,8 +453,8 @@ Fixpoint r2_stages (ds : dsetup) (r : residue) (dim partvals ch : Z) (s : Z) (cn
   | S c => if negb (rs_go st) then st
            else r2_stages ds r dim partvals ch (s + 1) c (r2_parts (Z.to_nat partvals + 1) ds r s dim partvals ch 0 0 st)
   end.
-Definition res2_inverse (ds : dsetup) (r : residue) (halfn : Z) (vecs : list (list f32)) (nonzero : list bool) (bs : bits)
-  : list (list f32) * bits :=
+Definition res2_inverse (ds : dsetup) (r : residue) (halfn : Z) (vecs : list (list f32)) (nonzero : list bool) (bs : prd)
+  : list (list f32) * prd :=
   let ch := Z.of_nat (length vecs) in
   let dim := b_dim (d_src (dbk ds (r_groupbook r))) in
   let mx := halfn * ch in
@@ -462,7 +470,7 @@ Definition res2_inverse (ds : dsetup) (r : residue) (halfn : Z) (vecs : list (li
 (* ------------------------------------------------------------------ *)
 (* mapping 0                                                           *)
 (* ------------------------------------------------------------------ *)
-Fixpoint floors_in (ds : dsetup) (m : mapping) (mux : list Z) (bs : bits) : list memo * bits :=
+Fixpoint floors_in (ds : dsetup) (m : mapping) (mux : list Z) (bs : prd) : list memo * prd :=
   match mux with
   | [] => ([], bs)
   | sub :: rest =>
@@ -487,7 +495,7 @@ Fixpoint put_back {A} (idx : list nat) (vals : list A) (all : list A) : list A :
   end.
 
 Fixpoint residues_in (ds : dsetup) (m : mapping) (halfn : Z) (nz : list bool) (sub : Z) (cnt : nat)
-                     (pcm : list (list f32)) (bs : bits) : list (list f32) * bits :=
+                     (pcm : list (list f32)) (bs : prd) : list (list f32) * prd :=
   match cnt with
   | O => (pcm, bs)
   | S c =>
@@ -541,7 +549,7 @@ Record pout := { po_verdict : pverdict; po_mode : Z; po_W : Z; po_lW : Z; po_nW 
 
 Definition synthesis (ds : dsetup) (pkt : list N) : pout :=
   let bad v := {| po_verdict := v; po_mode := 0; po_W := 0; po_lW := 0; po_nW := 0; po_left := 0; po_chans := [] |} in
-  let bs := bits_of_bytes pkt in
+  let bs : prd := (bits_of_bytes pkt, false) in
   let '(t, r0) := rdm 1 bs in
   if negb (t =? 0) then bad PNotAudio else
   let modes := s_modes (ds_setup ds) in
@@ -561,6 +569,6 @@ Definition synthesis (ds : dsetup) (pkt : list N) : pout :=
   let pcm0 := map (fun _ => repeat fzero (Z.to_nat halfn)) memos in
   let '(pcm1, r5) := residues_in ds m halfn nz 0 (Z.to_nat (m_submaps m)) pcm0 r4 in
   let pcm2 := uncouple (m_coupling m) pcm1 in
-  {| po_verdict := POk; po_mode := mode; po_W := W; po_lW := lW; po_nW := nW; po_left := Z.of_nat (length r5);
+  {| po_verdict := POk; po_mode := mode; po_W := W; po_lW := lW; po_nW := nW; po_left := (if snd r5 then -2 else Z.of_nat (length (fst r5)));
      po_chans := map (fun x => let '(j, mm, v) := x in apply_floor ds m halfn j mm v)
                      (combine (combine (seq 0 (length memos)) memos) pcm2) |}.
